@@ -159,7 +159,15 @@ def corpus():
                       ("get", b"\x01\x01", "meth")], None), ("state",), ("regen",),
            ("batch", [("del", b"\x01\x02", "meth"), ("batch", [("set", b"\x01\x02", b"b" * 40, "meth")], None)], None),
            ("state",), ("regen",), ("get", b"\x01\x01", "meth"), ("get", b"\x01\x02", "meth")]
-    return [d2, shared, short_root, tab]
+    # an extension over a two-child branch (leaf + sub-branch): deleting the leaf's key collapses the branch onto an EXTENSION child
+    extc = [("set", b"\x12\x00", b"a" * 40, "meth"), ("set", b"\x12\x10", b"b" * 40, "meth"), ("set", b"\x12\x11", b"c" * 40, "meth"),
+            ("state",), ("regen",), ("del", b"\x12\x00", "meth"), ("state",), ("regen",), ("set", b"\x12\x10", b"d" * 40, "item"), ("state",), ("regen",),
+            ("batch", [("set", b"\x12\x00", b"a" * 40, "meth"), ("del", b"\x12\x00", "item")], None), ("state",), ("regen",)]
+    # twin sibling leaves, one removed (direct and in a block)
+    V = b"V" * 40
+    twins = [("set", b"\x12\x01", V, "meth"), ("set", b"\x12\x11", V, "meth"), ("state",), ("regen",), ("del", b"\x12\x01", "meth"), ("state",), ("regen",),
+             ("set", b"\x12\x01", V, "item"), ("batch", [("del", b"\x12\x11", "meth")], None), ("state",), ("regen",)]
+    return [d2, shared, short_root, tab, extc, twins]
 
 
 def check(tier, seed):
